@@ -212,6 +212,12 @@ func (e *symEval) run(stmts []ast.Stmt) {
 				e.tail = stmts[i:]
 				return
 			}
+			// a named condition (cv := h != nil): looked through at the branch
+			if t := e.f.Info().TypeOf(s.Rhs[0]); t != nil {
+				if b, isB := t.Underlying().(*types.Basic); isB && b.Info()&types.IsBoolean != 0 && s.Tok == token.DEFINE {
+					continue
+				}
+			}
 			// lookup?
 			if ix, ok := ast.Unparen(s.Rhs[0]).(*ast.IndexExpr); ok {
 				if tbl, ok := e.f.FieldClass(ix.X); ok {
@@ -234,7 +240,7 @@ func (e *symEval) run(stmts []ast.Stmt) {
 			}
 		case *ast.IfStmt, *ast.SwitchStmt:
 			// if h != nil { return h, true }  (or the one-case switch form)
-			cond, body, els, isIf := asIf(st)
+			cond, body, els, isIf := asIfIn(e.f, st)
 			if !isIf {
 				e.tail = stmts[i:]
 				return
